@@ -343,6 +343,7 @@ class Sim(object):
         self.timer_ops = []
         self.timer_running = None
         self.blocking_recvs = 0
+        self.urgent_user = None
         self.outcome = None        # 'end-of-script' | 'returned' | 'raised' | 'blocked' | 'budget'
         self.error = None
         self.first_pending = first_pending
@@ -468,6 +469,12 @@ class Sim(object):
 
     def on_user_poll(self):
         self.tick('poll')
+        if self.urgent_user is not None:
+            # second half of a ('both', peer stimulus, primitive) step: the user's request has been
+            # waiting in the queue since the segment arrived - it is there at the very next poll,
+            # whatever the provider is doing
+            obj, self.urgent_user = self.urgent_user, None
+            return obj
         if not self.quiescent():
             raise queue.Empty
         self.quiescent_points += 1
@@ -496,6 +503,12 @@ class Sim(object):
                 raise queue.Empty
             if kind == 'time':
                 self.now += stim[1]
+                raise queue.Empty
+            if kind == 'both':
+                # a segment arrives and the local user issues a primitive at the same moment
+                if not self.deliver_to_socket(stim[1]):
+                    return stim[2]
+                self.urgent_user = stim[2]
                 raise queue.Empty
             if kind == 'stop':
                 self.provider.is_killed = True
